@@ -522,6 +522,51 @@ bool applyStep(QDomDocument &doc, QDomElement &root, QDomElement &anchor, const 
         }
         return true;
     }
+    if (op == "AddKnownSibling") {
+        // next to `cur` an element of another kind the parent's parser knows (kinds harvested from the
+        // corpus), empty or carrying the character data of `cur`
+        auto parent = cur.parentNode();
+        if (parent.isNull() || cur == root) {
+            return false;
+        }
+        const auto ns = st["ns"].toString();
+        auto sib = ns.isEmpty() ? doc.createElement(st["name"].toString()) : doc.createElementNS(ns, st["name"].toString());
+        if (st["txt"].toBool()) {
+            QString text;
+            for (auto n = cur.firstChild(); !n.isNull(); n = n.nextSibling()) {
+                if (n.isText() || n.isCDATASection()) {
+                    text += n.nodeValue();
+                }
+            }
+            if (text.isEmpty()) {
+                return false;
+            }
+            sib.appendChild(doc.createTextNode(text));
+        }
+        if (st["after"].toBool(true)) {
+            parent.insertAfter(sib, cur);
+        } else {
+            parent.insertBefore(sib, cur);
+        }
+        return true;
+    }
+    if (op == "MoveText") {
+        // the character data of `cur` moves to its right neighbour
+        auto next = cur.nextSiblingElement();
+        QList<QDomNode> texts;
+        for (auto n = cur.firstChild(); !n.isNull(); n = n.nextSibling()) {
+            if (n.isText() || n.isCDATASection()) {
+                texts << n;
+            }
+        }
+        if (next.isNull() || texts.isEmpty()) {
+            return false;
+        }
+        for (auto &n : texts) {
+            next.appendChild(n);
+        }
+        return true;
+    }
     if (op == "AddUnknownChild") {
         const auto ns = st["ns"].toString();
         auto child = ns.isEmpty() ? doc.createElement(QStringLiteral("qxv-unknown")) : doc.createElementNS(ns, QStringLiteral("qxv-unknown"));
@@ -958,7 +1003,7 @@ QXV_DRIVER(codec)
             }
             QJsonArray objs;
             for (const auto &t : objectTypes()) {
-                objs.append(QJsonObject { { "name", t.name }, { "fields", jarr(t.fields) } });
+                objs.append(QJsonObject { { "name", t.name }, { "fields", jarr(t.fields) }, { "kinds", jarr(t.kinds) } });
             }
             ctx.emit_({ { "e", "List" }, { "case", caseId }, { "registry", a }, { "objects", objs } });
             continue;
@@ -971,7 +1016,7 @@ QXV_DRIVER(codec)
             continue;
         }
         if (kind == "obj") {
-            auto res = objectCase(ctx, job["cls"].toString(), job["map"].toInt(), job["vals"].toArray(), job["variant"].toInt(), job["getters"].toBool());
+            auto res = objectCase(ctx, job["cls"].toString(), job["map"].toInt(), job["vals"].toArray(), job["variant"].toInt(), job["getters"].toBool(), job.contains("shape") ? job["shape"].toInt() : -1);
             res.insert("e", "Obj");
             res.insert("case", caseId);
             ctx.emit_(res);
@@ -1064,7 +1109,13 @@ QXV_DRIVER(codec)
             const auto steps = job["steps"].toArray();
             for (const auto &sv : steps) {
                 const auto so = sv.toObject();
-                ops << so["op"].toString() + (so.contains("ns") ? QChar('(') + so["ns"].toString() + QChar(')') : QString());
+                ops << so["op"].toString() +
+                        (so.contains("ns") ? QStringLiteral("({") + so["ns"].toString() + QChar('}') + so["name"].toString() +
+                                 (so.contains("after") ? (so["after"].toBool() ? QStringLiteral(",after") : QStringLiteral(",before")) +
+                                          (so["txt"].toBool() ? QStringLiteral(",text") : QString())
+                                                       : QString()) +
+                                 QChar(')')
+                                            : QString());
             }
             runDocument(caseId, steps, job["off"].toInt(), job["deep"].toBool(), job["client"].toBool(), job["anchor"].toInt(),
                         ops.join(QChar('+')) + QStringLiteral("@anchor%1").arg(job["anchor"].toInt()));
@@ -1132,6 +1183,9 @@ QXV_DRIVER(codec)
                         }
                     }
                     add({ { "op", "Rename" }, { "p", p } });
+                    if (i < nsib && !e.text().isEmpty() && childElements(e).isEmpty()) {
+                        add({ { "op", "MoveText" }, { "p", p } });
+                    }
                 }
                 if (second) {
                     add({ { "op", "Renamespace" }, { "p", p } });
